@@ -201,6 +201,51 @@ fn check_multi(input: &String, acc: &mut Acc) {
     }
 }
 
+/// Constants that contain the digits of the current clock second, next to a time test, rendered
+/// at once and again after the second has changed: the written numbers must come out unchanged
+/// in every rendering.
+fn clock_valued_constants(acc: &mut Acc) {
+    let now = || std::time::SystemTime::now().duration_since(std::time::UNIX_EPOCH).map(|d| d.as_secs()).unwrap_or(0);
+    for attempt in 0..4 {
+        let t = now();
+        let wants: Vec<String> = vec![t.to_string(), format!("{t}5"), format!("7{t}")];
+        let input = format!("-mmin -5 -links {t} -size +{t}5c -o -atime +2 -links -7{t}");
+        let wit = json!({"kind": "clock-valued", "input": input});
+        let (o, e) = match parse_real(&input) {
+            P::Ok(o, e) => (o, e),
+            _ => return,
+        };
+        let h = match crate::subject::compile_handle(&e, &o) {
+            C::Ok(h) => h,
+            _ => return,
+        };
+        if now() != t && attempt < 3 {
+            continue; // the second changed while compiling: take a fresh reading
+        }
+        acc.states += 1;
+        for pause in [0u64, 1200, 1100] {
+            std::thread::sleep(std::time::Duration::from_millis(pause));
+            acc.transitions += 1;
+            let Ok(text) = h.scheme("/dev") else { return };
+            let Ok(shape) = Prog::read(&text).and_then(|p| p.shape()) else { return };
+            let mut lits = vec![];
+            nums(&shape.scan_args[2], &mut lits);
+            for w in &wants {
+                if !lits.contains(w) {
+                    acc.violate(Violation::new(
+                        "C07:constant-changed-in-program:value-resembles-the-clock",
+                        format!("{input:?} rendered {} ms after compiling: the written constant {w} is not among the program's integer literals {lits:?}", pause),
+                        wit.clone(),
+                    ));
+                    return;
+                }
+            }
+        }
+        acc.validated += 1;
+        return;
+    }
+}
+
 /// Every count 0..=1100 and a few dozen mid-range values (not boundaries of anything) under every
 /// numeric keyword and unit.
 fn dense_inputs() -> Vec<String> {
@@ -248,7 +293,8 @@ pub fn run(ctx: &Ctx) -> i32 {
         }
     }
     let multi: Vec<String> = crate::props::corpus::value_interaction_inputs().into_iter().filter(|s| s.matches(" -").count() >= 1 && !s.starts_with("-name") ).collect();
-    let acc = par_items(&inputs, check).merge(par_items(&multi, check_multi));
+    let mut acc = par_items(&inputs, check).merge(par_items(&multi, check_multi));
+    clock_valued_constants(&mut acc);
     let mut extra = serde_json::Map::new();
     extra.insert("inputs".into(), json!(inputs.len()));
     finish(
@@ -267,6 +313,10 @@ pub fn run(ctx: &Ctx) -> i32 {
 
 pub fn replay(w: &Value) -> Vec<Violation> {
     let mut acc = Acc::new();
+    if w["kind"] == "clock-valued" {
+        clock_valued_constants(&mut acc);
+        return acc.violations.into_values().map(|(v, _)| v).collect();
+    }
     if w["kind"] == "multi" {
         check_multi(&w["input"].as_str().unwrap_or("").to_string(), &mut acc);
         return acc.violations.into_values().map(|(v, _)| v).collect();
